@@ -36,6 +36,8 @@ def _has_call(a: ast.AST, names: Tuple[str, ...]) -> bool:
 
 def run(ch: Checker) -> None:
     prog = ch.prog
+    ch.rule('C10.11', 'every close() in the TcpConnection hierarchy attempts the real close on every way through it, exceptional ones included: an override reaches super().close() '
+                      '(the base reaches self.connection.close()) whenever the connection is not closed yet -- anything it does first (TLS unwrap, logging) must not be able to skip it', 1)
     ch.rule('C10.1', 'lifecycle: Threadless._cleanup attempts `del self.works[id]` (and os.close(id) with a work-queue fd) on every path, exception edges included, after shutdown(); '
                      'HttpProtocolHandler.run attempts shutdown() and selector.close() on every path', 4)
     ch.rule('C10.2', 'registration pairing: each selector.register/modify in _update_work_events is followed at once by the store into registered_events_by_work_ids[work_id][fileno]; '
@@ -142,7 +144,7 @@ def run(ch: Checker) -> None:
              bad_u[0] if bad_u else 'no path with recorded descriptors reaches shutdown()', witness=bad_u[1] if bad_u else None)
     for fname, reg_in in (('_run_once', None), ('_flush', 'self.selector.register')):
         f = prog.own_method('HttpProtocolHandler', fname)
-        gf = cfg_of(f, prog)
+        gf = cfg_of(f, prog, unguarded_exc=True)      # an exception nothing in the function catches is a way out, too
         n, cex = must_attempt(gf, lambda a: _has_call(a, ('self.selector.unregister',)) or (isinstance(a, ast.For) and False),
                               lambda p, r=reg_in: True if r is None else any(_has_call(st, (r,)) for i, st in p.stmts(completed_only=True)))
         # _run_once unregisters inside a for loop over events: the loop head must be reached
@@ -241,8 +243,30 @@ def run(ch: Checker) -> None:
     from .common import who_may_close_check
     who_may_close_check(ch, 'C10.7')
 
+    # ---------------- C10.12/13 (shared)
+    ch.import_rules('C20', {'C20.1': 'C10.12', 'C20.2': 'C10.13'}, 'a connection that ends by idle timeout is only ever released if the idle predicate can become true for it')
+
     # ---------------- C10.8 (shared)
     ch.import_rules('C09', {'C09.6': 'C10.8'}, 'a strict decode of wire bytes that raises on the way to the close callbacks aborts teardown before the upstream socket is released')
+
+    # ---------------- C10.11 close() overrides reach the real close
+    tcn = prog.class_named('TcpConnection')
+    n11 = 0
+    for ci11 in [tcn] + prog.subclasses(tcn):
+        if ci11.module.name.startswith(('proxy.plugin', 'proxy.testing', 'proxy.http.websocket.client')):
+            continue
+        fn11 = ci11.methods.get('close')
+        if fn11 is None:
+            continue
+        n11 += 1
+        g11 = cfg_of(fn11, prog, unguarded_exc=True)
+        target = ('self.connection.close',) if ci11 is tcn else ('super().close',)
+        nn, cex = must_attempt(g11, lambda a, t=target: any(isinstance(c, ast.Call) and norm(c.func) in t for c in walk_no_nested(a)),
+                               lambda p: allfacts(p).get('self.closed') is not True and allfacts(p).get('self.connection') is not False,
+                               extra_pure=('isinstance',))
+        ch.check(cex is None and nn > 0, 'C10.11', fn11, 'close() reaches the real close', '%s attempted on all %d path(s) with the connection still open' % (target[0], nn),
+                 '%s.close() can be left without %s() having been attempted (%s): the socket stays open and nothing else will close it'
+                 % (ci11.name, target[0], cex[0] if cex else 'no path with an open connection'), witness=cex[1] if cex else None)
 
     # ---------------- C10.9 who may set closed = True
     ALLOWED_CLOSED = {'TcpConnection.close', 'TcpServerConnection.__init__', 'HttpProtocolHandler.handle_data', 'HttpProxyPlugin._close_and_release'}
